@@ -42,7 +42,8 @@ class _ParseSpec(Spec):
             for i, s in enumerate(docs.g2_shards(pool, replace=True)):
                 # every position of the mini skeletons, every second position of the others
                 heavy = s["base"].count("\n") >= 2 and ("`\n" in s["base"] or "(\n" in s["base"] or "a\nb" in s["base"] or "```x \\" in s["base"])
-                if s["base"] in mini or (i % 2 == 0 and not heavy) or (heavy and i % 4 == 0):
+                short = len(s["base"]) <= 16
+                if s["base"] in mini or (not heavy and (short or i % 2 == 0)) or (heavy and i % 4 == 0):
                     out.append(self.job(s, budget=100.0 if heavy else 150.0))
         elif self.prop in ("C01", "C02"):
             for s in docs.g1_shards(3):
@@ -81,7 +82,7 @@ class _ParseSpec(Spec):
     def bounds_text(self, tier):
         if tier == "quick":
             return {"G1": "all documents of length 0..2 (every cell any Unicode scalar value but NUL/CR)",
-                    "G2": "core skeleton pool (skeletons.txt), one symbolic cell replacing each position of the 9 mini skeletons and every second position of the other 14",
+                    "G2": "core skeleton pool (skeletons.txt), one symbolic cell replacing each position of the 9 mini skeletons and every position of the other skeletons up to 16 characters, every second position of the longer ones, every fourth of the multi-line-inline ones",
                     "G1-Sigma": "all documents of length 5 over {*,_,a,space,`}, of length 4 over {[,],(,),a,!} and over {>,-,space,newline,a,1,.}",
                     "per_path_timeout_s": self.per_path_timeout}
         if self.prop in ("C04", "C05"):
